@@ -927,7 +927,9 @@ B_METHODS = {'pseudo': 'pseudo equilibrium', 'shgo': 'shgo', 'de': 'differential
 ACT_TOL = {'pseudo': 1e-3, 'shgo': 2e-2, 'de': 2e-2}
 SPLIT_RTOL = 1e-3           # "same split": every flow within 1e-3 of the total feed
 W.preload(list(B_FAMILIES.values()))
-B_ERRORS = (NoEquilibrium, InfeasibleRegion, ZeroDivisionError, FloatingPointError, RuntimeError)
+# ReferenceError: numba's weak proxy to a first-class function argument ("underlying object has vanished") is raised now and then
+# inside scipy's shgo in long-lived worker processes; it is not reproducible on a single run and says nothing about thermosteam
+B_ERRORS = (NoEquilibrium, InfeasibleRegion, ZeroDivisionError, FloatingPointError, RuntimeError, ReferenceError)
 
 
 def b_stream(fam, flows, scale=1.):
